@@ -119,7 +119,7 @@ def safe_division_obligations(R):
     values: a finite set containing +-0, negatives, tiny/huge (bounded in values)."""
     import aurel.maths as M
     R.under_contract(M.safe_division, 'aurel.maths.safe_division')
-    vals = [0.0, -0.0, 1.5, -2.0, 1e-15, 1e15]
+    vals = [0.0, -0.0, 1.5, -2.0, 1e-15, 1e15, 1e-20, -3e-300]
     def variants(shape):
         base = np.array(vals * 2)[:int(np.prod(shape)) if shape else 1]
         out = []
@@ -180,6 +180,120 @@ def safe_division_obligations(R):
          time.time() - t0, '; '.join(bad[:10]), bad or None, bounded=f'{n} type/shape combinations, finite value set')
 
 
+def safe_division_symbolic(R):
+    """E2: the real safe_division on symbolic reals, one run per (kind of a) x (kind of b) of its isinstance / dtype
+    dispatch: result == a / b where b != 0 and == 0 where b == 0, for ALL real values (z3)."""
+    import types
+    import z3
+    import aurel.maths as M
+    from engine import symx as SX
+    from engine.symx import Z, explore, prove, to_z3
+
+    def zof(v):
+        return v.z if isinstance(v, (ZF, ZI, ZA)) else v
+
+    class ZF(float):
+        def __new__(cls, z):
+            o = float.__new__(cls, 0.0)
+            o.z = z
+            return o
+        def __eq__(self, o): return self.z == zof(o)
+        def __ne__(self, o): return self.z != zof(o)
+        __hash__ = None
+        def __truediv__(self, o): return ZF(self.z / zof(o)) if not isinstance(o, ZA) else ZA(self.z / o.z, 'float64')
+        def __rtruediv__(self, o): return ZF(zof(o) / self.z)
+        def __mul__(self, o): return ZF(self.z * zof(o))
+        __rmul__ = __mul__
+
+    class ZI(int):
+        def __new__(cls, z):
+            o = int.__new__(cls, 0)
+            o.z = z
+            return o
+        def __eq__(self, o): return self.z == zof(o)
+        def __ne__(self, o): return self.z != zof(o)
+        __hash__ = None
+        def __mul__(self, o): return ZF(self.z * zof(o))
+        __rmul__ = __mul__
+        def __truediv__(self, o): return ZF(self.z / zof(o))
+        def __rtruediv__(self, o): return ZF(zof(o) / self.z)
+
+    class ZA(np.ndarray):
+        def __new__(cls, z, kind):
+            o = np.ndarray.__new__(cls, shape=(), dtype=object)
+            o.z, o.kind = z, kind
+            return o
+        @property
+        def dtype(self): return np.dtype(self.kind)
+        def astype(self, t): return ZA(self.z * 1.0, np.dtype(t).name)
+        def __eq__(self, o): return self.z == zof(o)
+        def __ne__(self, o): return self.z != zof(o)
+        __hash__ = None
+        def __truediv__(self, o): return ZA(self.z / zof(o), 'float64')
+        def __rtruediv__(self, o): return ZA(zof(o) / self.z, 'float64')
+        def __mul__(self, o): return ZA(self.z * zof(o), 'float64')
+        __rmul__ = __mul__
+
+    class NPd:
+        ndarray, int32, int64, float32, float64 = np.ndarray, np.int32, np.int64, np.float32, np.float64
+        errstate = np.errstate
+        def where(self, c, x, y): return Z(z3.If(to_z3(c), to_z3(zof(x), real=True), to_z3(zof(y), real=True)))
+        def zeros_like(self, a): return Z(z3.RealVal(0))
+    g = dict(M.__dict__)
+    g['np'] = NPd()
+    fn = types.FunctionType(M.safe_division.__code__, g, 'safe_division')
+    kinds = ['int', 'float', 'array int32', 'array int64', 'array float64', 'numpy scalar']
+
+    def mk(kind, name):
+        if kind == 'int':
+            return ZI(Z(z3.Int(name)))
+        if kind == 'float':
+            return ZF(Z(z3.Real(name)))
+        if kind.startswith('array'):
+            k = kind.split()[1]
+            return ZA(Z(z3.Int(name) if k.startswith('int') else z3.Real(name)), k)
+        return Z(z3.Real(name))
+    t0 = time.time()
+    bad, unk, n = [], [], 0
+    for ka, kb in itertools.product(kinds, repeat=2):
+        def run():
+            c = SX.ctx()
+            a, b = mk(ka, 'a'), mk(kb, 'b')
+            res = fn(a, b)
+            toreal = lambda e: z3.ToReal(e) if z3.is_int(e) else e
+            az, bz = toreal(to_z3(zof(a))), toreal(to_z3(zof(b)))
+            c.require('value', toreal(to_z3(zof(res), real=True)) == z3.If(bz != 0, az / bz, z3.RealVal(0)))
+        try:
+            paths = explore(run)
+        except Exception as e:
+            unk.append(f'a: {ka}, b: {kb}: {type(e).__name__}: {e}')
+            continue
+        for _, c in paths:
+            for nm, goal, pc in c.obls:
+                n += 1
+                v, model, _ = prove(pc, goal)
+                if v == 'invalid':
+                    bad.append(f'a: {ka}, b: {kb}: counter-model {model}')
+                elif v == 'unknown':
+                    unk.append(f'a: {ka}, b: {kb}: {model}')
+    R.paths += n
+    st = 'refuted' if bad else ('undecided' if unk else 'discharged')
+
+    def replay(o):
+        worst = []
+        for bv in (1e-17, -3e-300, 5e-324, 1e-20):
+            for a in (2.0, np.array([1.0, -2.0]), 3):
+                for b in (bv, np.array([bv, 0.0]), np.float64(bv)):
+                    with np.errstate(all='ignore'):
+                        r = np.asarray(M.safe_division(a, b), dtype=float)
+                        e = np.where(np.asarray(b) != 0, np.asarray(a, dtype=float) / np.where(np.asarray(b) != 0, np.asarray(b), 1), 0)
+                    if not np.allclose(r, np.broadcast_to(e, r.shape), rtol=1e-12, atol=0, equal_nan=False):
+                        worst.append(f'safe_division({a!r}, {b!r}) = {r!r}, expected {e!r}')
+        return bool(worst), '; '.join(worst[:4]) or 'tiny non-zero divisors handled as specified'
+    R.ob('maths.safe_division:result == a/b where b != 0 and 0 where b == 0, all reals, every dispatch path', 'safe_division', st, 'z3',
+         time.time() - t0, '; '.join((bad or unk)[:3]) or f'{n} verification conditions over {len(kinds)}^2 kind pairs', bad[:6] or None, replay=replay)
+
+
 def run(R):
     W = Worlds(R.seed)
     npts = 1 if R.tier == 'quick' else 3
@@ -187,6 +301,7 @@ def run(R):
     R.notes.append('conditioning of the closed-form inverses for badly scaled inputs is a floating-point question outside this family (A1): the closed forms are proved algebraically correct for every admissible input')
     maths_obligations(R, max(npts, 2))
     safe_division_obligations(R)
+    safe_division_symbolic(R)
     scens = ['freeT', 'fluid'] if R.tier == 'quick' else ['freeT', 'fluid', 'fluid_comp', 'onshell', 'noshift']
     for f in ALG_FUNCS:
         function_obligations(R, W, f, scens, npoints=npts)
